@@ -308,7 +308,8 @@ class StreamEngine(engines.HistEngine):
             # 0. the committed development
             t = time.time()
             ok_build, build_log = C.coq_build()
-            ok_vo, vo_log = ensure_stream_vo() if ok_build else (False, build_log)
+            # only this property's own dependency cone decides (make -k: a broken file elsewhere must not alarm C12)
+            ok_vo, vo_log = ensure_stream_vo()
             proof_ok, plog, axioms, n_stmt, n_qed = (False, vo_log, [], 0, 0)
             if ok_vo:
                 proof_ok, plog, axioms, n_stmt, n_qed = C.props_assumptions(pid)
